@@ -53,6 +53,7 @@ var impTargets = []impTarget{
 	{"hermes/nitro.go", "nmove", true},
 	{"hermes/nitro.go", "mineral", false},
 	{"hermes/crop.go", "vern", true},
+	{"hermes/init.go", "setFieldCapacityWithGW", false},
 }
 
 // ---------------------------------------------------------------------------------------------- type-checked package
